@@ -248,6 +248,8 @@ func exec(line string) zv.Out {
 		return execNames(f)
 	case "vh":
 		return execVH(f)
+	case "cf", "rk":
+		return execCertFields(f)
 	case "gsi", "ku", "kan", "san", "jx":
 		return execViews(f)
 	}
@@ -406,6 +408,7 @@ func gen(g *zv.Gen) {
 	// ---- coll / jnames: CollectAllNames and the names part of the JSON view (T2 + T3) ----
 	genNames(g, add)
 	genVH(g, add)
+	genCertFields(g, add)
 	// ---- gsi / ku / kan / san / jx: JSON sub-views with index, table and slice logic (T2 + T3) ----
 	genViews(g, add)
 	// ---- cert: T3 ----
